@@ -11,11 +11,16 @@ namespace Bifrost.Props.C21E2E
 open Bifrost Bifrost.SigSys
 
 theorem send_success_delivered (s : State) (h : Reachable s) : sendSuccessDelivered s = true := by
-  sorry
+  exact sendSuccessDelivered_of_inv (inv_of_reachable h)
 
 /-- Non-vacuity: a complete exchange in which the `Send` does report success. -/
 example : ∃ s, Reachable s ∧ sendSuccessDelivered s = true ∧
     ∃ a ∈ s.clients, ∃ c ∈ a.st.sends, c.result = some true := by
-  sorry
+  refine ⟨run [.newClient 1 2, .newClient 2 1, .connect 1 2, .connect 2 1,
+      .srvLoop 1, .srvTx 1, .clientRx 1 2, .srvLoop 2, .srvTx 2, .clientRx 2 1,
+      .sendStart 1 2 ⟨1, 1⟩, .sendStep 1 2 1, .clientTx 1 2, .srvRx 1, .srvLoop 2, .srvTx 2, .clientRx 2 1,
+      .recvStep 2 1, .clientTx 2 1, .srvRx 2, .srvLoop 1, .srvTx 1, .clientRx 1 2, .sendStep 1 2 1],
+    reachable_run _, send_success_delivered _ (reachable_run _), ?_⟩
+  decide
 
 end Bifrost.Props.C21E2E
